@@ -1137,6 +1137,12 @@ impl Pc for Single {
         } else if variant % 3 == 1 {
             // into the caller's own buffer, not cleared since the last read
             let r = es(self.c.read(f, off, len, &mut self.own));
+            if r.is_ok() && variant % 2 == 0 {
+                // the caller makes room in its buffer before looking at the result: growing the
+                // buffer must not change (or unhook) what it holds
+                let want = self.own.capacity() * 2 + (1 << 16);
+                self.own.reserve(want);
+            }
             r.map(|_| self.own.data().to_vec())
         } else {
             // into a buffer that was made from other data
@@ -1358,11 +1364,9 @@ impl Scenario for PageCache {
                 }
             };
             let len = clip(size, off, len);
-            // NOT generated: prefetch / invalidate_range of a zero-length range at an exact multiple of
-            // 2^44: the 32-bit page id of `off` is 0, that of `off - 1` is 0xFFFF_FFFF, and both calls
-            // walk all 2^32 pages (a hang of hours with unbounded memory growth in invalidate_range;
-            // reported in the audit report, it cannot be observed within a run's time budget)
-            let len = if len == 0 && off >= 1 << 40 && off % (1 << 44) == 0 && (58..66).contains(&(o[0] % 100)) | (74..80).contains(&(o[0] % 100)) { 1 } else { len };
+            // (a zero-length prefetch / invalidate_range at an exact multiple of 2^44 used to walk all 2^32
+            // pages - hours, with unbounded memory in invalidate_range - and was not generated; it is
+            // generated since fix 160acbd, and a regression shows as a hang)
             if off >= 1 << 40 {
                 // (announced beforehand: the result of such a call is often a panic, which leaves no event of its own)
                 cx.ev(format!("next operation (kind {}) uses the far offset {} with length {}", o[0] % 100, off, len));
@@ -2498,7 +2502,6 @@ fn main() {
         "operations on the sharded map are issued from different threads but never overlap (the statement quantifies over access sequences)".into(),
         "the shard a key is routed to is learned from the map's own per-shard statistics, not re-derived".into(),
         "a disk change is always followed by an invalidation of the changed range before the next read; a file never shrinks while it is open (one fault-free run in ten appends to an open file and invalidates the appended range)".into(),
-        "not generated: prefetch / invalidate_range of a zero-length range at an exact multiple of 2^44 (walks 2^32 pages: hours, unbounded memory)".into(),
         "ConcurrentLruMap without a callback (concurrent_lru/plain_ctor, lru_map/plain_ctor): what a put evicted is what contains_key no longer reports".into(),
         "cache/lru_cache.rs, cache/page_cache.rs and cache/sharding.rs are not compiled into the crate and are not exercised".into(),
     ];
